@@ -15,7 +15,7 @@ LK == MintLower
 LimitSets == IF Thorough THEN {{}, {[denom |-> LK, amt |-> 0]}, {[denom |-> LK, amt |-> 1]}, {[denom |-> LK, amt |-> 2]},
                                {[denom |-> "OTHER", amt |-> 0]}, {[denom |-> LK, amt |-> -1]}}
                          ELSE {{}, {[denom |-> LK, amt |-> 1]}, {[denom |-> LK, amt |-> 2]}}
-MaxBodies == IF Thorough THEN {0, 131, 132, 133} ELSE {131, 132}
+MaxBodies == IF Thorough THEN {0, 131, 132, 133, 3000000} ELSE {131, 132, 3000000}     \* (3000000 stands for 2^32)
 Balances  == IF Thorough THEN {0, 1, 3} ELSE {0, 3}
 Flags     == IF Thorough THEN BOOLEAN \X BOOLEAN ELSE {<<FALSE, FALSE>>, <<TRUE, FALSE>>, <<FALSE, TRUE>>}
 
